@@ -8,7 +8,15 @@ import numpy as np
 
 from common import enc, q, unq, frac, run_model, ModelError
 
-ATOL = Fraction(float(1e-8))          # the double nearest to 1e-8, exactly
+REL = Fraction(float(1e-8))           # the double nearest to 1e-8, exactly (relative snapping tolerance)
+ATOL = REL
+
+
+def tol_of(nodes):
+    """snapping tolerance of one dimension: 1e-8 * node spread (spread 0 -> 1), as interpolator.py computes it"""
+    nodes = [Fraction(n) for n in nodes]
+    s = max(nodes) - min(nodes) if nodes else Fraction(0)
+    return REL * (s if s != 0 else 1)
 TWO30 = Fraction(1, 2 ** 30)
 TINY = Fraction(1, 2 ** 1000)
 
@@ -79,9 +87,10 @@ def enc_grid(tol, nodes, weights):
     return [q(tol), [q(v) for v in nodes], [q(v) for v in weights]]
 
 
-def state_grids(state, var_order, tol=ATOL):
-    """grids (protocol form) of a LagrangeState in the given variable order, with the stored float weights"""
-    return [enc_grid(tol, np.asarray(state.x_grids[v]).tolist(), np.asarray(state.weights[v]).tolist()) for v in var_order]
+def state_grids(state, var_order, rel=REL):
+    """grids (protocol form) of a LagrangeState in the given variable order, with the stored float weights; the first
+    component is the RELATIVE tolerance, the model derives the absolute one from the node spread (Lagr.mk_grid)"""
+    return [enc_grid(rel, np.asarray(state.x_grids[v]).tolist(), np.asarray(state.weights[v]).tolist()) for v in var_order]
 
 
 def within(impl_float, exact: Fraction, bound_abs: Fraction, factor=TWO30, extra=Fraction(0)):
@@ -91,10 +100,11 @@ def within(impl_float, exact: Fraction, bound_abs: Fraction, factor=TWO30, extra
     return abs(Fraction(float(impl_float)) - exact) <= factor * bound_abs + extra + TINY
 
 
-def band_flags(grids_nodes, x, tol=ATOL):
+def band_flags(grids_nodes, x):
     """per dim: 'on' (exactly a node), 'band' (within tol of a node but not on it), 'off'"""
     out = []
     for nodes, xk in zip(grids_nodes, x):
+        tol = tol_of(nodes)
         if any(xk == n for n in nodes):
             out.append('on')
         elif any(abs(xk - n) <= tol for n in nodes):
@@ -104,9 +114,10 @@ def band_flags(grids_nodes, x, tol=ATOL):
     return out
 
 
-def near_threshold(grids_nodes, x, tol=ATOL, guard=Fraction(1, 2 ** 20)):
+def near_threshold(grids_nodes, x, guard=Fraction(1, 2 ** 20)):
     """True when some |x_k - node| is within the guard band around the snapping threshold (decision could differ by rounding)"""
     for nodes, xk in zip(grids_nodes, x):
+        tol = tol_of(nodes)
         for n in nodes:
             d = abs(xk - n)
             if d != 0 and abs(d - tol) <= guard * tol:
@@ -114,11 +125,12 @@ def near_threshold(grids_nodes, x, tol=ATOL, guard=Fraction(1, 2 ** 20)):
     return False
 
 
-def snap(grids_nodes, x, tol=ATOL):
+def snap(grids_nodes, x):
     """the point the code actually evaluates at: a coordinate within tol of a node is moved onto that node
     (DESIGN C03: inside a snapping band the surrogate equals the interpolant at the snapped point, |snap x - x| <= tol)"""
     out = []
     for nodes, xk in zip(grids_nodes, x):
+        tol = tol_of(nodes)
         near = [n for n in nodes if abs(xk - n) <= tol]
         out.append(near[0] if len(near) == 1 else xk)
     return out
